@@ -109,6 +109,37 @@ REGISTRY['C18'] = numeric('C18', 'c18_approx.cpp', nq=20000, nt=1000000,
                                'judged only when eps >= 1e4*u*max|coordinate|*max|time| (otherwise counted unresolvable); tangents with norms 1e-12..1e9: identical, against zero at eps/10 and 10 eps, relative at (1 +- eps/10) and (1 +- 10 eps); ' + RULE_STRATA,
                           assumptions=ASSUME_FP + ['X == X relies on bit-exact cancellation of X^-1*X, which holds only under the baseline FP model (no FMA contraction)'])
 
+def c08_spec():
+    groups = [('SO2', 'double'), ('SE2', 'double'), ('SO3', 'double'), ('SE3', 'double'), ('SE23', 'double'), ('SGAL3', 'double'), ('BT1', 'double'), ('BT4', 'double'), ('SO3', 'float'), ('SE2', 'float'), ('SE3', 'float')]
+    scheds = ['uniform', 'square', 'xxinv', 'tiny', 'pi', 'pingpong']
+    def bins(tier):
+        return [Bin('c08_history.cpp', b, ['MG=' + g, 'MS=' + sc]) for g, sc in groups for b in ('asan', 'opt')]
+    def run(p, tier, seed, t0):
+        bs = bins(tier)
+        ok, dt = build_all(bs)
+        fail = None
+        for b in bs:
+            if b.error: fail = (fail or '') + ' monitor %s does not build: %s' % (b.name, b.error.strip().split('\n')[0][:200])
+        steps = {'asan': 60000, 'opt': 400000} if tier == 'quick' else {'asan': 2000000, 'opt': 20000000}
+        nseeds = 1 if tier == 'quick' else 2
+        jobs = []
+        for b in bs:
+            if not b.path: continue
+            for sc in scheds:
+                for k in range(nseeds):
+                    n = steps[b.build] * (3 if sc == 'uniform' else 1)
+                    jobs.append({'bin': b, 'n': n, 'seed': seed * 100 + k, 'tag': '/'.join(d.split('=')[1] for d in b.defs[:2]) + '/' + b.build, 'args': ['--arg', 'sched=' + sc]})
+        fold, f2 = run_sharded(p, tier, seed, jobs, 1800 if tier == 'quick' else 14400)
+        if f2: fail = (fail or '') + f2
+        spec = {'level': 'exploration', 'rule': 'histories over a pool of 4 live elements; alphabet of 21 operations (exp, compose, *=, inverse, between, rplus, +=, lplus, 3 interpolations, 4 averages, cast float<->double round trips, Random, '
+                're-construction from coeffs, Map write-back, X=X*X^-1*B, ...); schedules: uniform random and five adversarial repetitions (X*=X, X=X*X^-1, += of 1e-12 steps, += of pi-sized steps, inverse ping-pong); after every step every live '
+                'element is checked (finite, | ||q||-1 | < Constants::eps in long double); %s steps per (group, schedule) in the assertion-enabled ASan build and %s in the NDEBUG -O2 build; a cell is (group, schedule, operation) actually executed; '
+                'window maxima (1e5 steps) are recorded to show the deviation has no trend' % (steps['asan'], steps['opt']),
+                'assumptions': ASSUME_FP + ['coordinates are kept below 1e6 by rescaling the translation-like coefficients (overflow of translations is not what is claimed)']}
+        return finish(p, tier, seed, fold, spec, t0, harness_fail=fail, extra_cov={'groups': ['%s/%s' % gs for gs in groups], 'schedules': scheds, 'builds': ['asan (assertions on)', 'opt (-O2 -DNDEBUG)']})
+    return {'bins': bins, 'run': run}
+REGISTRY['C08'] = c08_spec()
+
 def c17_spec():
     groups = ['SE2', 'SO3', 'SE3', 'SGAL3', 'R3', 'BT1']
     def bins(tier):
@@ -287,6 +318,7 @@ REGISTRY['C19'] = c19_spec()
 # MANIFEST metadata
 # ------------------------------------------------------------------------------------------------
 ENGINES = [
+    {'name': 'history monitor', 'path': '/verif/harness/c08_history.cpp', 'serves_properties': ['C08'], 'kind_free_text': 'online per-step invariant checker over random/adversarial operation sequences'},
     {'name': 'child-per-case enumerator', 'path': '/verif/harness/c17_decasteljau.cpp', 'serves_properties': ['C17'], 'kind_free_text': 'fork per configuration, parent watchdog, sanitizer + assertion aborts are verdicts'},
     {'name': 'api-matrix builder', 'path': '/verif/harness/gen_c19.py', 'serves_properties': ['C19'], 'kind_free_text': 'generates one TU per (group, scalar) with one function per API cell; localises non-instantiable cells from compiler traces; executes the rest under ASan/UBSan'},
     {'name': 'ref-model differential monitor', 'path': '/verif/harness/model.cpp', 'serves_properties': ['C01', 'C02', 'C03', 'C04', 'C05', 'C06'],
@@ -317,6 +349,9 @@ MANIFEST_META = {
     'C06': dict(engine='ref-model differential monitor', design_ref='DESIGN.md 4/C06', technique='runtime monitor vs series-defined Jr (augmented expm of ad), model Adj/ad',
                 text='rjac/ljac are compared with sum_k (-ad)^k/(k+1)! evaluated as a block of expm([[-ad,I],[0,0]]) (no small-angle case analysis in the oracle), the inverses with the model inverse and as products, Adj/adj/smallAdj with their definitions on the reference matrices, at the 1e-6 relative bound the property states, densely in (sqrt(eps),1e-2) where the defects were.',
                 note=NOTE_NUM),
+    'C08': dict(engine='history monitor', design_ref='DESIGN.md 4/C08', technique='online invariant monitor over long random and adversarial operation histories (ASan+assertions build and NDEBUG -O2 build)',
+                text='After every step of histories of 6e4..2e7 steps per (group, schedule) every live element is checked against the library\'s own acceptance threshold recomputed in long double; the bound is enforced at each step, so it is independent of the history length by construction, and 1e5-step window maxima are recorded to show there is no trend; with assertions on, any escaping exception is a violation.',
+                note='Histories are random draws from a 21-operation alphabet plus five adversarial single-operation schedules; held on the histories executed. ' + NOTE_NUM),
     'C15': dict(engine='ref-model differential monitor', design_ref='DESIGN.md 4/C15', technique='runtime monitor: end points, rejection of out-of-range parameters, SLERP vs model geodesic and left translation',
                 text='For three methods and arbitrary end velocities the end points are compared with A and B on the model, ten out-of-range parameters (incl. NaN, +-inf, -denorm_min, nextafter(1)) must raise, SLERP is compared with A*exp(t*log(A^-1 B)) evaluated on the model and with its left translate, and smoothing_phi is checked on a 20000-point grid per degree.',
                 note=NOTE_NUM + ' Out-of-range parameters are judged in the scalar type of the group (1+1e-9 is exactly 1 in float).'),
